@@ -63,7 +63,8 @@ func (g *genState) rootKey(name string) []byte {
 	return best
 }
 
-var collNamePool = []string{"a", "b", "c0", "x y", "q\"uote", "back\\slash", "<tag>&", "Zed", "", "name-with-long-text-0123456789"}
+var collNamePool = []string{"a", "b", "c0", "x y", "q\"uote", "back\\slash", "<tag>&", "Zed", "", "name-with-long-text-0123456789",
+	"idx\x00users\x00by-mail", "tab\tnl\nq\"<&>", "del\x7f"}
 
 func genKeyPool(r *Rng, fold bool, nkeys int) [][]byte {
 	var pool [][]byte
